@@ -459,6 +459,61 @@ class Model:
         """walk all paths from entry over (block, set of possible worlds, satisfied obligations, path class);
         at blocks where exit_pred(bb) holds, report obligations whose guard is possible and that are unmet.
         returns (failures, nstates): failures = list of (ob, path_class, bb)"""
+        seen, obs = self._walk(region)
+        worlds = self.worlds
+        nW = len(worlds)
+        failures = []
+        for bb, (mask, sat, cls) in seen:
+            if not exit_pred(bb):
+                continue
+            if region == "child" and cls != "child":
+                continue
+            if region == "shell" and cls == "child":
+                continue
+            ws = [worlds[i] for i in range(nW) if mask >> i & 1]
+            for o in obs:
+                if o["id"] in sat:
+                    continue
+                if any(o["guard"](wd) for wd in ws):
+                    failures.append((o, cls, bb))
+        return failures, len(seen)
+
+    def stale_uses(self):
+        """operations that name pipes[idx-1].1.  The shell released that end at the previous stage (P1, proven
+        on every regular return), so at this stage the *number* is stale: a descriptor created since - in this
+        function only the here-string pipe - may own it.  Returns [(bb, op, region, live)], live = on some path
+        to the operation the here-string pipe exists (stage > 0) and has not yet been installed / consumed."""
+        body = self.body
+        s = self.s
+        P, I = strip_sites(s.pipes), strip_sites(s.idx)
+        stale = fld(1, ("index", P, ("bin", "Sub", I, ("const", 1))))
+        sites = {}
+        for bb, t, c in body.calls():
+            if last_seg(c) in ("close", "dup2", "dup", "from_raw_fd", "write", "read"):
+                a = body.call_args(bb)
+                if a and self.canon(a[0]) == stale:
+                    sites[bb] = last_seg(c)
+        out = []
+        if not sites:
+            return out
+        worlds = self.worlds
+        nW = len(worlds)
+        for region, marker in (("child", "K6b"), ("shell", "P5b")):
+            seen, obs = self._walk(region)
+            agg = {}
+            for bb, (mask, sat, cls) in seen:
+                if bb not in sites:
+                    continue
+                if (region == "child") != (cls == "child"):
+                    continue
+                live = marker not in sat and any(
+                    worlds[i]["zero"] == "P" and worlds[i]["hs"] == "Some" for i in range(nW) if mask >> i & 1)
+                agg[bb] = agg.get(bb, False) or live
+            for bb, live in sorted(agg.items()):
+                out.append((bb, sites[bb], region, live))
+        return out
+
+    def _walk(self, region):
         body = self.body
         obs = [o for o in self.obligations() if o["region"] == region]
         loops_ok = self.closing_loops() if region == "child" else set()
@@ -537,22 +592,10 @@ class Model:
             return out
 
         # a resource that has not been created yet is absent
-        seen = mir.explore(body, 0, (hs_none, frozenset(), "other"), step)
-        failures = []
-        for bb, (mask, sat, cls) in seen:
-            if not exit_pred(bb):
-                continue
-            if region == "child" and cls != "child":
-                continue
-            if region == "shell" and cls == "child":
-                continue
-            ws = [worlds[i] for i in range(nW) if mask >> i & 1]
-            for o in obs:
-                if o["id"] in sat:
-                    continue
-                if any(o["guard"](wd) for wd in ws):
-                    failures.append((o, cls, bb))
-        return failures, len(seen)
+        cache = self.__dict__.setdefault("_walk_cache", {})
+        if region not in cache:
+            cache[region] = (mir.explore(body, 0, (hs_none, frozenset(), "other"), step), obs)
+        return cache[region]
 
 
 def _subst_params(e, actual):
